@@ -1,7 +1,7 @@
 SPECIFICATION MCSpec
 CONSTANTS
-  Sizes <- S52
-  Ent <- EntS
+  Sizes <- S43
+  Ent <- Ent01
   KLim <- K12
   DrSet <- NoDr
   Emit = FALSE
